@@ -138,6 +138,18 @@ fn close32(a: f32, b: f32) -> bool {
     a == b || (a - b).abs() <= 1e-6 * a.abs().max(b.abs())
 }
 
+/// free text as users type it into quoted values: the signs that mean something elsewhere in the format ($ starts a
+/// comment line, = separates key and value, .. ends a block only on a line of its own) are ordinary characters inside quotes
+fn text_value(rng: &mut Rng, prefix: &str) -> String {
+    let base = crate::gen::bdl::db_name(rng, prefix);
+    match rng.usize(8) {
+        0 => format!("{} 12$/m2", base),
+        1 => format!("{} (ref. $A) 150000$ PEM", base),
+        2 => format!("{} 100% a=b", base),
+        _ => base,
+    }
+}
+
 impl C18 {
     /// random document: blocks of every supported type, random attribute subsets, random extra attributes
     fn document(&self, rng: &mut Rng, case: &Case, obs: &mut Obs) {
@@ -178,10 +190,10 @@ impl C18 {
                         2 => rng.dec(0.0, 1e6, 0) as f32,
                         _ => rng.logu(1e-4, 1e4) as f32,
                     }),
-                    1 => AVal::Str(crate::gen::bdl::db_name(rng, "N")),
+                    1 => AVal::Str(text_value(rng, "N")),
                     2 => AVal::Word(["YES", "NO", "CONDITIONED", "SPACE-V12", "FULLY-MIXED"][rng.usize(5)].to_string()),
                     3 => AVal::NumList((0..1 + rng.usize(9)).map(|_| rng.dec(-10.0, 100.0, 3) as f32).collect()),
-                    4 => AVal::StrList((0..1 + rng.usize(6)).map(|_| crate::gen::bdl::db_name(rng, "L")).collect()),
+                    4 => AVal::StrList((0..1 + rng.usize(6)).map(|_| text_value(rng, "L")).collect()),
                     _ => AVal::Str(String::new()),
                 };
                 bl.attrs.push((key, val));
